@@ -663,22 +663,28 @@ func c02Explore(cfg c02Cfg) c02Res {
 func c02Configs(tier string) []c02Cfg {
 	alpha := []c02Op{{"put", 0, 1}, {"put", 1, 0}, {"del", 0, 0}, {"del", 1, 1}, {"put", 2, 0}}
 	type base struct {
-		n, r int
-		rr   bool
-		l    int
-		stab bool
+		n, r  int
+		rr    bool
+		l     int
+		stab  bool
+		table int // 0: 64 KiB tables; 128: fragments span several tables (with three more keys in k0's partition)
 	}
-	bases := []base{{3, 2, false, 3, true}, {3, 2, true, 2, false}, {4, 2, false, 2, false}, {3, 3, false, 1, true}, {4, 3, true, 1, false}}
+	bases := []base{{3, 2, false, 3, true, 0}, {3, 2, true, 2, false, 0}, {4, 2, false, 2, false, 0}, {3, 3, false, 1, true, 0}, {4, 3, true, 1, false, 0}, {3, 2, false, 2, false, 128}}
 	if tier == "thorough" {
-		bases = []base{{3, 2, false, 3, true}, {3, 2, true, 3, true}, {4, 2, false, 3, true}, {5, 2, true, 2, true},
-			{3, 3, false, 2, true}, {3, 3, true, 2, false}, {4, 3, false, 2, false}, {4, 3, true, 1, true}, {5, 3, false, 1, true}, {5, 3, true, 2, false}}
+		bases = []base{{3, 2, false, 3, true, 0}, {3, 2, true, 3, true, 0}, {4, 2, false, 3, true, 0}, {5, 2, true, 2, true, 0},
+			{3, 3, false, 2, true, 0}, {3, 3, true, 2, false, 0}, {4, 3, false, 2, false, 0}, {4, 3, true, 1, true, 0}, {5, 3, false, 1, true, 0}, {5, 3, true, 2, false, 0},
+			{3, 2, false, 3, false, 128}, {3, 3, false, 2, false, 128}}
 	}
 	per := make([][]c02Cfg, len(bases))
 	for bi, b := range bases {
 		var rec func(cur []c02Op)
 		rec = func(cur []c02Op) {
 			if len(cur) == b.l {
-				per[bi] = append(per[bi], c02Cfg{N: b.n, R: b.r, RR: b.rr, Ops: append([]c02Op{}, cur...), StabFaults: b.stab})
+				cf := c02Cfg{N: b.n, R: b.r, RR: b.rr, Ops: append([]c02Op{}, cur...), StabFaults: b.stab, Table: b.table}
+				if b.table != 0 {
+					cf.Fill = 3
+				}
+				per[bi] = append(per[bi], cf)
 				return
 			}
 			for _, o := range alpha {
